@@ -43,9 +43,9 @@ func runC02(c *Ctx) {
 	}
 	// roles: host-table probe = callee of MatchRequest returning ([]rules.Rule, bool); insert = method of DNSEngine taking *HostRule
 	var probe, insert, poolGet *ssa.Function
-	eachInstr(mr, func(_ *ssa.BasicBlock, in ssa.Instruction) {
+	eachInstrG(c.P, mr, func(_ *ssa.BasicBlock, in ssa.Instruction) {
 		if ci, ok := in.(ssa.CallInstruction); ok {
-			if cal := ci.Common().StaticCallee(); cal != nil && c.P.IsLibFunc(cal) {
+			if cal := ci.Common().StaticCallee(); cal != nil && c.P.IsLibFunc(cal) && !c.P.IsNewHelper(cal) {
 				r := cal.Signature.Results()
 				if r.Len() == 2 && typeStr(r.At(0).Type()) == "[]rules.Rule" {
 					probe = cal
@@ -56,9 +56,9 @@ func runC02(c *Ctx) {
 			}
 		}
 	})
-	eachInstr(nde, func(_ *ssa.BasicBlock, in ssa.Instruction) {
+	eachInstrG(c.P, nde, func(_ *ssa.BasicBlock, in ssa.Instruction) {
 		if ci, ok := in.(ssa.CallInstruction); ok {
-			if cal := ci.Common().StaticCallee(); cal != nil && c.P.IsLibFunc(cal) && cal.Signature.Recv() != nil {
+			if cal := ci.Common().StaticCallee(); cal != nil && c.P.IsLibFunc(cal) && !c.P.IsNewHelper(cal) && cal.Signature.Recv() != nil {
 				ps := cal.Signature.Params()
 				if ps.Len() == 2 && typeStr(ps.At(0).Type()) == "*rules.HostRule" {
 					insert = cal
